@@ -37,7 +37,7 @@ def rtok(v):
     return 'o(' + ','.join(k + '=' + rtok(x) for k, x in v.items()) + ')'
 
 
-PATHS = ['/dev/ttyS3', '/dev/gnss0', '/dev/ttyACM0', '/dev/a', '/dev/b', '/dev/ttyACM10', '/dev/ttyACM1', '/dev/ttyS30', 'dev/b', '/dev/b ']
+PATHS = ['/dev/ttyS3', '/dev/gnss0', '/dev/ttyACM0', '/dev/a', '/dev/b', '/dev/ttyACM10', '/dev/ttyACM1', '/dev/ttyS30', 'dev/b', '/dev/b ', '/dev/gps-\u00e9', '/dev/serial/by-id/usb-\u00b5blox']
 
 
 def rand_line(rng, requested):
@@ -61,7 +61,7 @@ def rand_line(rng, requested):
     if k == 'watch':
         return {'class': 'WATCH', 'enable': True, 'raw': 2, 'devices': 'x'}, k
     if k == 'tpv':
-        return {'class': 'SKY', 'device': '/dev/a', 'satellites': [{'PRN': 1}]}, k
+        return {'class': 'SKY', 'device': rng.choice(['/dev/a', '/dev/\u00fc']), 'satellites': [{'PRN': 1}], 'note': rng.choice(['x', '48\u00b0 N', '\u6771\u4eac'])}, k
     if k == 'classnum':
         return {'class': 'DEVICES ', 'devices': 7}, k
     if k == 'classobj':
@@ -107,7 +107,7 @@ def check(tier, seed):
                         lines_b.append(b'[' * rng.choice([50, 2000, 5000]))
                         lines_t.append('X')
                     else:
-                        lines_b.append(json.dumps(v).encode())
+                        lines_b.append(json.dumps(v, ensure_ascii=rng.random() < 0.5).encode('utf-8'))       # gpsd sends UTF-8
                         lines_t.append(jtok(v))
                         if isinstance(v, dict) and v.get('class') == 'DEVICES' and isinstance(v.get('devices'), list):
                             dev_msgs.append([d['path'] for d in v['devices']])
@@ -144,66 +144,7 @@ def check(tier, seed):
                 req_tok = '-'      # '' is falsy: same as not given (the model's requested())
             cases.append(Case('gpsd-handshake', f'gpsd {req_tok} ' + ' '.join(chunks_t), impl, desc,
                               nontrivial=bool(dev_msgs), kind='+'.join(sorted(kinds))[:50]))
-        # setup() end to end: handshake loop over the stub socket, then the command header and one command
-        class Stop(Exception):
-            pass
-        n_setup = 0
-        for _ in range(40 if tier == 'quick' else 1500):
-            requested = rng.choice([None, '/dev/ttyACM1', '/dev/b', ''])
-            lists = []
-            chunks = []
-            for _c in range(rng.randrange(1, 4)):
-                devs = rng.sample(PATHS, rng.randrange(0, 4))
-                lists.append(devs)
-                line = json.dumps({'class': 'DEVICES', 'devices': [dict({'class': 'DEVICE', 'path': p_}, **rng.choice([{}, {'driver': 'NMEA0183'}, {'driver': None}, {'driver': 'u-blox'}])) for p_ in devs]}).encode()
-                pre = rng.choice([b'', b'{"class":"VERSION","release":"3.25"}\r\n', b'$GPRMC,1*00\r\n', b'\r\n'])
-                chunks.append(pre + line + b'\r\n')
-            if rng.random() < 0.5:      # several lists in one recv(): all are processed before the loop can stop
-                chunks = [b''.join(chunks)]
-            srv, SV = BK.gpsd_server(requested or None)
-            BK.StubSocket.plan = {'data_chunks': list(chunks) + [Stop], 'reply': b'OK'}
-            try:
-                srv.setup()
-                done = True
-            except Stop:
-                done = False
-            except AssertionError:
-                done = False
-            except Exception as e:
-                res.violation('setup(): the handshake raised ' + type(e).__name__, {'property': 'C20', 'input': {'requested': requested, 'device_lists': lists, 'chunks': [c.decode('latin-1') for c in chunks]}, 'result': repr(e)}, 'c20-setup-raise|' + type(e).__name__)
-                continue
-            sel, en = None, False
-            # what the handshake must have selected by the time it stopped reading
-            seen = []
-            for ch, grp in zip(chunks, [lists] if len(chunks) == 1 else [[l] for l in lists]):
-                for paths in grp:
-                    if requested:
-                        if requested in paths:
-                            sel, en = requested, True
-                    elif paths:
-                        sel, en = paths[0], True
-                if en:
-                    break
-            desc = {'requested': requested, 'device_lists': lists, 'one_chunk': len(chunks) == 1}
-            n_setup += 1
-            if done != en or srv.selected_device != sel:
-                res.violation('setup(): handshake selected the wrong device or finished in the wrong state',
-                              {'property': 'C20', 'input': desc, 'expected': [sel, en], 'result': [srv.selected_device, srv.enabled, done]}, f'c20-setup|{bool(requested)}')
-            elif done:
-                # a second server object set up in between must not change where the first one sends its commands
-                other = SV.GnssUBlox(None)          # same class object (class-level state would be shared)
-                BK.StubSocket.plan = {'data_chunks': [b'{"class":"DEVICES","devices":[{"path":"/dev/other"}]}\r\n', Stop], 'reply': b'OK'}
-                try:
-                    other.setup()
-                except Exception:
-                    pass
-                if srv.cmd_header != b'&' + sel.encode() + b'=':
-                    res.violation('setup(): command header does not address the selected device', {'property': 'C20', 'input': desc, 'result': repr(srv.cmd_header)}, 'c20-header')
-                BK.StubSocket.plan = {'reply': b'OK'}
-                srv._transmit(b'\xb5\x62')
-                sent = BK.StubSocket.plan.get('sent', [b''])[0]
-                if not sent.startswith(b'&' + sel.encode() + b'='):
-                    res.violation('command addressed to a device other than the selected one', {'property': 'C20', 'input': desc, 'sent': repr(sent)}, 'c20-cmd')
+        n_setup = BK.gpsd_setup_cases(res, 'C20', rng, 40 if tier == 'quick' else 1500, PATHS)
         res.notes['setup_runs'] = n_setup
         res.compare(cases)
         res.oblige('correspondence _parse_gpsd_msg (Tie A)', not res.disagreements)
